@@ -461,6 +461,15 @@ def new_dict(st, pairs_u, ty=None):
   return r
 
 
+def copy_dict(st, src, ty=None):
+  """copy.copy of a dict: a fresh dict with the keys and values of src at this moment"""
+  r = alloc_obj(st, ty or Ty('dict', (ANY, ANY)), 'dict')
+  olddom, oldval = st.heap.get('dom'), st.heap.get('val')
+  st.heap = st.heap.with_('dom', lambda d, k: z3.If(d == r.t, olddom(src, k), olddom(d, k))) \
+                   .with_('val', lambda d, k: z3.If(d == r.t, oldval(src, k), oldval(d, k)))
+  return r
+
+
 def dict_store(st, d, k, v):
   olddom, oldval = st.heap.get('dom'), st.heap.get('val')
   st.heap = st.heap.with_('dom', lambda x, y: z3.If(z3.And(x == d, y == k), z3.BoolVal(True), olddom(x, y))) \
